@@ -29,9 +29,27 @@ seeds and partitionings never enter a label.  The first stage in pipeline order 
 disagreement already present at "logical" (lowered without any simplification) is not caused by
 a rewrite but is still a deviation from pandas and is reported under that stage name.
 
+Known mechanisms (triaged by hand, see findings_proposed/C43.md) are recognised by what the symptom itself says or by
+an input-feature predicate of the shrunk program (``_label``), so that one mechanism keeps one label per symptom.
+
 Calibration
 -----------
-(filled in below the module constants: see CALIBRATION)
+* ``frames.compare`` classifies an assert message containing "[index]:" as an index mismatch although the VALUES
+  differ; the module re-checks the index itself and relabels such results ``values``.
+* groupby results are compared as multisets: ``ddf.groupby('a').c.sum()`` does not come back sorted by key on this tree
+  (sort order of groupby is C38's business, not the optimizer's).
+* programs stay inside the domain where dask WITHOUT any rewrite ("logical" stage) agrees with pandas; constructs whose
+  unoptimized result already differs were removed from the generator after triage (they belong to other properties and
+  are listed as side observations in findings_proposed/C43.md): int min/max/sum combined arithmetically with an int
+  column when some partitions are empty (float instead of int, C37), ``const / column`` and division by an arbitrary
+  reduction (inf, then reductions over inf differ), ``merge(how='left')`` with unmatched keys (data-dependent dtypes,
+  C40/C42), ``Series.notna`` (attribute missing in dask; ``notnull`` is used).
+* ``tree_repr()`` is not used to detect rewrites (it reprs every partition of a from_map frame: 8 s per case); the
+  expression ``_name`` (the optimizer's own fixpoint criterion) is compared instead.
+* ``head(n)`` with the default ``npartitions=1`` and ``tail(n)`` only look at the first/last partition: they are used only
+  when that partition holds >= n rows at run time (decided on the dask side, mirrored on the pandas side), otherwise
+  ``head(n, npartitions=-1)`` / no step is used on both sides.
+* re-optimization groups are only run when the first pass agreed with pandas (they would inherit its failure).
 """
 from __future__ import annotations
 
@@ -62,7 +80,7 @@ ASSUMPTIONS = [
     "dask.get (synchronous scheduler) executes a materialised graph faithfully (C01)",
     "the shrinker only names the mechanism; the verdict comes from the unshrunk program",
 ]
-BUDGET = {"quick": 75, "thorough": 540}
+BUDGET = {"quick": 75, "thorough": 600}
 CASE_TIMEOUT = 90
 EXHAUSTIVE_SPACE = ("all 24 orderings of the 4 steps {x[['a','d']], x[x.a > 0], x.assign(a = x.d - x.a), x[x.a < 2]} x 3 "
                     "partitionings (1 partition; 3 partitions with known divisions; 4 row slices incl. an empty one with "
@@ -77,17 +95,51 @@ CLAIM = ("Every generated program was optimized by the real optimizer and execut
          "counterexample among the programs observed (all 24 orders of the 4-step space completely; everything else sampled).")
 
 FLOORS = {
-    "quick": {"evaluations": 400, "distinct_nontrivial": 300,
-              "counters": {"stage_evaluations": 3000, "changed_by_simplify": 150, "fused_programs": 200,
-                           "changed_by_lowering": 50, "programs_with_shared_subexpr": 100, "exhaustive_orders": 72},
-              "sets": {"expr_classes": 25}, "max_skipped_fraction": 0.2},
-    "thorough": {"evaluations": 4000, "distinct_nontrivial": 3000,
-                 "counters": {"stage_evaluations": 30000, "changed_by_simplify": 1500, "fused_programs": 2000,
-                              "changed_by_lowering": 500, "programs_with_shared_subexpr": 1000, "exhaustive_orders": 72},
-                 "sets": {"expr_classes": 30}, "max_skipped_fraction": 0.2},
+    # ~45 % of the counts measured on the unchanged tree (quick: 1171 evaluations; per-case counters scale with it)
+    "quick": {"evaluations": 520, "distinct_nontrivial": 480,
+              "counters": {"stage_evaluations": 4500, "changed_by_simplify": 480, "fused_programs": 500,
+                           "changed_by_lowering": 370, "changed_by_second_simplify": 90, "programs_with_shared_subexpr": 430,
+                           "programs_agreeing_at_all_stages": 450, "exhaustive_orders": 72},
+              "sets": {"expr_classes": 35}, "max_skipped_fraction": 0.2},
+    "thorough": {"evaluations": 5900, "distinct_nontrivial": 5400,
+                 "counters": {"stage_evaluations": 50000, "changed_by_simplify": 5400, "fused_programs": 5600,
+                              "changed_by_lowering": 4200, "changed_by_second_simplify": 1000,
+                              "programs_with_shared_subexpr": 4800, "programs_agreeing_at_all_stages": 5000,
+                              "exhaustive_orders": 72},
+                 "sets": {"expr_classes": 40}, "max_skipped_fraction": 0.2},
 }
 
-PENDING = {}
+# Genuine defects observed on the unchanged tree (witnesses, locations and proposed fixes: findings_proposed/C43.md)
+PENDING = {
+    "simplified-logical:head-or-tail-pushed-into-scalar-operand-of-elemwise:AttributeError@utils.py:__call__":
+        "Head/Tail._simplify_down push head/tail into the scalar (reduction) operand of an elementwise op: (s + s.std()).head() raises (fix proposed)",
+    "simplified-logical:fillna:values":
+        "df.fillna({'c': v})['c']: projection pushed through Fillna with a dict value -> Series.fillna(dict) fills nothing (fix proposed)",
+    "simplified-logical:concat-projected-to-zero-columns:IndexError@dataframe/dask_expr/_concat.py:_meta":
+        "concat([a, b]).assign(z=1)['z']: Concat._simplify_up drops all frames when no original column is selected (fix proposed)",
+    "logical:concat-projected-to-zero-columns:IndexError@dataframe/dask_expr/_concat.py:_meta":
+        "same mechanism reached while lowering sort_values/set_index of such a concat",
+    "simplified-logical:projection-through-concat-of-frames-with-different-columns:length":
+        "concat([df[['a','c']], df[['a']]])['c'] silently loses the rows of the frame without column c (same line, same fix)",
+    "simplified-logical:projection-through-concat-of-frames-with-different-columns:dtype":
+        "same mechanism; the NaN rows that would make the column float are missing",
+    "simplified-logical:projection-through-concat-of-frames-with-different-columns:values":
+        "same mechanism seen through a later reduction/elementwise op",
+    "reoptimized-fused:fused-group-reads-rewritten-dependency:ValueError@local.py:start_state_from_dask":
+        "optimize() of an already fused expression rewrites a Fused node's operands but not the expressions inside the group: "
+        "collection.optimize().compute() raises Missing dependency (~5 % of programs; no small fix)",
+    "simplified-logical:projection-pushed-below-sort-head:KeyError@dataframe/dask_expr/_reductions.py:_nfirst":
+        "sort_values(k).head(n) -> NFirst; a later projection without k is pushed below it (fix proposed)",
+    "simplified-logical:projection-pushed-below-sort-head:TypeError@dataframe/dask_expr/_reductions.py:_nfirst":
+        "same mechanism with a single-column projection: NFirst on a Series calls Series.sort_values(by=)",
+    "simplified-logical:projection-pushed-below-sort-head:KeyError@dataframe/dask_expr/_reductions.py:_nlast":
+        "same mechanism for sort_values(k).tail(n)",
+    "simplified-logical:projection-pushed-below-sort-head:TypeError@dataframe/dask_expr/_reductions.py:_nlast":
+        "same mechanism for sort_values(k).tail(n), single column",
+    "simplified-physical:filt+head+pred+reduce:IndexError@_task_spec.py:__call__":
+        "second simplify squashes two filters although the upper predicate (with a reduction) already reads the filtered column: "
+        "mask of mixed lengths, raises with duplicate index labels (no fix proposed)",
+}
 
 PARTS_EXH = (
     {"how": "npartitions", "n": 1},
@@ -135,7 +187,7 @@ def cases(tier, seed):
         yield {"family": "perm", "order": order, "prog": P.perm_program(order), "ord": True, "idx": True,
                "fseed": rng.randrange(10 ** 6), "nrows": n, "index": rng.choice(INDEXES), "part": rand_partition_desc(rng, n)}
     # ---- typed random programs ------------------------------------------------------------------
-    k = 1000 if tier == "quick" else 16000
+    k = 1000 if tier == "quick" else 12000
     for j in range(k):
         fam = "chain" if j % 2 == 0 else "dag"
         prog, m = P.random_program(rng, fam)
@@ -265,8 +317,8 @@ def _check(prog, pdf, part, ordered, idx_ok, stages, observe=None):
                     break
                 try:
                     m = frames.compare(val, expected, ordered=ordered, check_index=idx_ok, rtol=1e-9)
-                    if m is not None and m[0] == "index" and ordered and _same_index(val, expected):
-                        m = ("values", m[1])
+                    if m is not None and m[0] == "index" and _same_index(val, expected, ordered):
+                        m = ("values", m[1])   # frames._classify reads "[index]:" in a VALUES message as an index mismatch
                 except Exception as ex:  # noqa: BLE001  comparison itself failed: treat as a mismatch with the reason
                     m = ("uncomparable", "%s: %s" % (type(ex).__name__, ex))
                 if m is not None:
@@ -278,9 +330,13 @@ def _check(prog, pdf, part, ordered, idx_ok, stages, observe=None):
         return ("ok", None)
 
 
-def _same_index(a, b):
+def _same_index(a, b, ordered=True):
     try:
-        return len(a.index) == len(b.index) and bool((a.index == b.index).all())
+        if len(a.index) != len(b.index):
+            return False
+        if ordered:
+            return bool((a.index == b.index).all())
+        return sorted(map(repr, a.index)) == sorted(map(repr, b.index))
     except Exception:  # noqa: BLE001
         return False
 
@@ -443,8 +499,30 @@ def _label(stage, symptom, message, small):
     if symptom == "IndexError@dataframe/dask_expr/_concat.py:_meta":
         # Concat left without any frame: a projection that selects none of the frames' columns (only assigned ones)
         return "%s:concat-projected-to-zero-columns:%s" % (stage, symptom)
-    if symptom.startswith("KeyError@dataframe/dask_expr/_reductions.py:_nfirst") or \
-            symptom.startswith("KeyError@dataframe/dask_expr/_reductions.py:_nlast"):
-        # sort_values(k).head/tail(n) became NFirst/NLast and a later projection without k was pushed below it
-        return "%s:projection-without-sort-key-pushed-below-sort-head:%s" % (stage, symptom)
+    if symptom.endswith("@dataframe/dask_expr/_reductions.py:_nfirst") or symptom.endswith("@dataframe/dask_expr/_reductions.py:_nlast"):
+        # sort_values(k).head/tail(n) became NFirst/NLast and a later projection was pushed below it without keeping k
+        # (KeyError) or turning the frame into a Series (TypeError: Series.sort_values(by=))
+        return "%s:projection-pushed-below-sort-head:%s" % (stage, symptom)
+    if stage != "logical" and not symptom.count("@") and _concat_of_different_columns(small):
+        # Projection(Concat(axis=0)) drops every input frame that lacks the selected columns, and with it its rows
+        return "%s:projection-through-concat-of-frames-with-different-columns:%s" % (stage, symptom)
     return "%s:%s:%s" % (stage, "+".join(P.label_features(small)) or "none", symptom)
+
+
+def _concat_of_different_columns(prog):
+    """Input-feature predicate on the (shrunk) program: some row-wise concat joins frames whose column SETS differ.
+    Decided by typing the program with pandas on a tiny frame."""
+    from vf.gen import c43_programs as P
+
+    try:
+        pdf = _base({"fseed": 1, "nrows": 4, "index": "range"})
+        for i in P.live(prog):
+            nd = prog["nodes"][i]
+            if nd[0] == "concat0":
+                a = P.evaluate({"nodes": prog["nodes"], "out": nd[1]}, pdf, "pd", {})
+                b = P.evaluate({"nodes": prog["nodes"], "out": nd[2]}, pdf, "pd", {})
+                if set(a.columns) != set(b.columns):
+                    return True
+    except Exception:  # noqa: BLE001
+        return False
+    return False
